@@ -7,8 +7,8 @@ import clustergen
 
 ID = "C19"
 DRIVER = "node"
-MODEL_FILES = ["Model/Base.v", "Model/Parse.v", "Model/Node.v"]
-THEOREMS = ["C19_newer_never_refused", "C19_newer_reply_value", "C19_newer_apply", "C19_tombstone_reply_refuted", "C19_sched_resolving_set_succeeds", "C19_sched_newer_set_release", "C19_sched_newer_resolving_release", "C19_sched_newer_set_answered", "C19_sched_newer_version_grows", "C19_sched_newer_version_grows_inv"]
+MODEL_FILES = ["Model/Base.v", "Model/Parse.v", "Model/Node.v", "Model/Sched.v", "Model/Cluster.v"]
+THEOREMS = ["C19_newer_never_refused", "C19_newer_reply_value", "C19_newer_apply", "C19_tombstone_reply_refuted", "C19_sched_resolving_set_succeeds", "C19_sched_newer_set_release", "C19_sched_newer_resolving_release", "C19_sched_newer_set_answered", "C19_sched_newer_version_grows", "C19_sched_newer_version_grows_inv", "C19_newer_incoming_wins", "C19_newer_opps_below_inv", "C19_newer_keep_old_without_invariant", "C19_newer_replicas_agree", "C19_newer_replicas_replies", "C19_newer_refused_replies_differ", "C19_newer_last_write_wins", "C19_newer_last_write_wins_bounded", "C19_newer_last_write_wins_replicas", "C19_newer_run_bounded", "C19_newer_primary_to_secondary", "C19_newer_primary_queues", "C19_newer_replicas_example"]
 STRENGTH = {t: "proof-unbounded" for t in THEOREMS}
 RULE = ("exhaustive sequences (length <= 4 quick / 5 thorough) of plain and versioned writes (versions -1..3) to keys of a "
         "'newer' database and of the administrative database, with a watcher, remove and snapshot+flush mixed in; seeded random "
@@ -16,8 +16,10 @@ RULE = ("exhaustive sequences (length <= 4 quick / 5 thorough) of plain and vers
         "interleavings (driver sched); family c*: 2-3 node clusters, writes from two clients of the primary with random FIFO delivery "
         "orders, every replica compared with the last write issued; distinct = distinct canonical trace; non-trivial = "
         "at least one stale versioned write was resolved")
-ASSUMPTIONS = ["sequential execution: op ids grow with issue order, so every stale write is resolved in favour of the incoming change; "
-               "the keep-old branch needs op-id inversions (two clients) and is covered by the schedule model",
+ASSUMPTIONS = ["families x*, r*: sequential execution: op ids grow with issue order, so every stale write is resolved in favour of the incoming change "
+               "(C19_newer_incoming_wins proves it from the clock invariant); the keep-old branch needs op-id inversions (two clients) and is covered by the schedule model",
+               "replica agreement (C19_newer_replicas_agree) is about the same writes applied in the same order on each node, each with its own clock: the order in which "
+               "the primary's writes reach a secondary is the link's FIFO order (cluster family c*)",
                "version arguments below -1 and versions at i32::MAX are outside the quantifier"]
 TRUSTED = []
 
